@@ -14,3 +14,7 @@ def targets(eng):
     return [ground_target("bounded:noise-session", native_noise.bounded_noise_obligations,
                           functions=["aioesphomeapi._frame_helper.noise.APINoiseFrameHelper (whole session, bounded)"])] + noise.targets_for(eng, ["__init__", "connection_made", "_setup_proto", "_send_hello_handshake", "_handle_hello", "_handle_handshake", "_handle_frame", "_handle_closed",
                                    "data_received", "lemmas"], ["C03"])
+
+
+# built-in mutants of the real source text for the thorough tier's self-check (each must be refuted by a named obligation)
+MUTANTS = [('noise-marker-any', 'aioesphomeapi/_frame_helper/noise.py', '            if preamble != 0x01:', '            if preamble != 0x01 and preamble != 0x02:')]
